@@ -428,7 +428,7 @@ pub fn decode_objects_with(
             }
             // the lenient reading takes a count-qualified header of an event group without looking for objects, whatever
             // the variation (frozen analog events, g33, have no size table here)
-            None if dataless => ObjSize::Empty,
+            None if dataless || (lenient_counts && !needs_data) => ObjSize::Empty,
             None => return Err(DecodeError::UnknownObject(group, var)),
         };
         if needs_data {
